@@ -113,6 +113,10 @@ Theorem dispatch : forall reg q,
          [EInvoke (q_resource q) (q_commit q) (q_xid q) (q_bid q) (q_resource q) ctx;
           ERespond (q_msgid q) (q_commit q) (q_xid q) (q_bid q)
                    (status_of (q_commit q) (q_user_fails q)) (code_of (q_user_fails q))]) /\
+  (* unreadable application data: no user code, one response with the retryable-failure status *)
+  (registered reg (q_resource q) = true -> ctx_of (q_app q) = None ->
+     phase2 reg q = [ERespond (q_msgid q) (q_commit q) (q_xid q) (q_bid q)
+                              (if q_commit q then st_commit_retry else st_rollback_retry) 0%N]) /\
   (* the reported status is committed / rollbacked iff the user method returned no error *)
   (status_of (q_commit q) (q_user_fails q) = (if q_commit q then st_committed else st_rollbacked)
      <-> q_user_fails q = false) /\
@@ -122,6 +126,7 @@ Proof.
   intros reg q. unfold phase2. repeat split.
   - intros H. rewrite H. reflexivity.
   - intros H ctx Hc. rewrite H, Hc. reflexivity.
+  - intros H Hc. rewrite H, Hc. destruct (q_commit q); reflexivity.
   - destruct (q_commit q), (q_user_fails q); simpl; intros H; try reflexivity; discriminate.
   - intros ->. destruct (q_commit q); reflexivity.
   - intros ->. destruct (q_commit q); reflexivity.
@@ -153,9 +158,3 @@ Proof.
     destruct (ctx_of (q_app q)); reflexivity.
 Qed.
 
-Lemma malformed_refuted : exists reg q,
-  registered reg (q_resource q) = true /\ phase2 reg q = [EPanic].
-Proof.
-  exists [bs "act"], (mkQ true (bs "act") (bs "x") 1 7 (AJson (JObj [(bs "actionContext", JNumZ 5)])) false).
-  vm_compute. split; reflexivity.
-Qed.
